@@ -82,7 +82,7 @@ def run_one(args):
             continue
         allobl[rid] = obls
         floor = RULES[rid][2]
-        if len(obls) < floor:
+        if len(obls) < floor and not any(o.status == VIOL for o in obls):
             errors[rid] = 'floor %d > %d' % (floor, len(obls))
         v = [o for o in obls if o.status == VIOL and not (rid == 'P23')]
         u = [o for o in obls if o.status == UNDEC]
